@@ -305,11 +305,13 @@ def eval_case(spec, case):
     # --- predicate discipline
     seen = set()
     bad_calls = []
+    pos = {id(n): i for i, n in enumerate(nodes)}
+    labels = [r[1] for r in spec.nodes]
     for c in calls:
         if id(c) in seen:
-            bad_calls.append(f"{c._data!r} asked twice")
+            bad_calls.append(f"node @{pos.get(id(c))} asked twice")
         elif id(c) not in asked_ids:
-            bad_calls.append(f"{c!r} asked although it is " + ("below a skipped/selected node or after the stop" if id(c) in V else "not a node of the source branch"))
+            bad_calls.append((f"node @{pos[id(c)]} ({labels[pos[id(c)]]}) asked although it is below a skipped/selected node or after the stop") if id(c) in pos else f"{type(c).__name__} object asked that is not a node of the source")
         seen.add(id(c))
     if bad_calls:
         out.append((CL_CALLS + sfx, func, "; ".join(bad_calls[:3])))
